@@ -269,6 +269,16 @@ static void op_encdec(const V &a, V &r) {
     for (int i = 0; i < nb; i++) { bootsSymEncrypt(c, (int) v[1 + i], cur.sk); r.push_back(lwePhase(c, cur.sk->lwe_key)); r.push_back(bootsSymDecrypt(c, cur.sk)); }
     delete_gate_bootstrapping_ciphertext(c);
 }
+// decbit spec a(n) b -> bootsSymDecrypt of the given sample under the key set of the spec
+static void op_decbit(const V &a, V &r) {
+    need_keys(a);
+    const TFheGateBootstrappingParameterSet *P = cur.params; const int n = P->in_out_params->n;
+    const ll *v = a.data() + SPECN;
+    LweSample *c = new_gate_bootstrapping_ciphertext(P);
+    for (int i = 0; i < n; i++) c->a[i] = (int32_t) v[i]; c->b = (int32_t) v[n];
+    r.push_back(bootsSymDecrypt(c, cur.sk)); r.push_back(lwePhase(c, cur.sk->lwe_key));
+    delete_gate_bootstrapping_ciphertext(c);
+}
 // netlist spec mode nwires ninstr (kind dst a b c)* inputs(nwires)
 //   mode 0: inputs are fresh encryptions; mode 1: inputs carry an injected phase error of +-(1/32 - 2^-20) (alternating sign)
 //   -> per instruction: phase of the destination wire after it; then the decrypted bit of every wire
@@ -327,6 +337,7 @@ int main() {
         else if (op == "boot") op_boot(a, r);
         else if (op == "bkgen") op_bkgen(a, r);
         else if (op == "keyimage") op_keyimage(a, r);
+        else if (op == "decbit") op_decbit(a, r);
         else if (op == "brpair") op_brpair(a, r);
         else if (op == "fullkey") op_fullkey(a, r);
         else if (op == "fullcase") op_fullcase(a, r);
